@@ -472,11 +472,15 @@ func runC02(r *fw.Run) {
 		}
 		// every message length in a window around each multiple of the reader buffer size, both directions
 		for _, centre := range []int{4096, 8192, 65536} {
+			lo := centre - 110
 			if centre > 8192 && !r.Thorough {
-				continue
+				lo = centre - 100
 			}
 			var calls []PairCall
-			for n := centre - 110; n <= centre+10; n++ {
+			for n := lo; n <= centre+10; n++ {
+				if centre > 8192 && !r.Thorough && n < centre-75 && n%5 != 0 {
+					continue
+				}
 				calls = append(calls, PairCall{Style: "call", ParamKind: "raw", ID: fmt.Sprintf("x%d", n), ExactPad: n, Replies: []string{"{}"}})
 			}
 			for reseg := 0; reseg < 3; reseg += 2 {
